@@ -123,6 +123,7 @@ func matchNumCallsZero(p *Prog) condMatch {
 
 func runC13(c *Check, a *Analysis) {
 	p := c.P
+	ruleLockBalance(c, a, "R-LOCK-BALANCE", "Transport.connsMu", "persistConn.mu")
 	sc := siteCounter{}
 	c.Rule("R-LOCK", "Transport.conns/idleConns/running, conns.Conns/cursor and connQueue.front/rear/length are only accessed with Transport.connsMu held", 30)
 	ruleLock(c, a, "R-LOCK", "Transport", "conns", "idleConns", "running")
@@ -331,6 +332,7 @@ func runC13(c *Check, a *Analysis) {
 
 func runC14(c *Check, a *Analysis) {
 	p := c.P
+	ruleLockBalance(c, a, "R-LOCK-BALANCE", "Transport.connsMu", "persistConn.mu")
 	ls := a.Locks()
 	sc := siteCounter{}
 	gc := p.Fn("(*Transport).getConn")
@@ -569,6 +571,7 @@ func runC14(c *Check, a *Analysis) {
 
 func runC15(c *Check, a *Analysis) {
 	p := c.P
+	ruleLockBalance(c, a, "R-LOCK-BALANCE", "Transport.connsMu", "persistConn.mu")
 	ls := a.Locks()
 	sc := siteCounter{}
 	c.Rule("R-BUSY-GUARD", "in housekeeping and CloseIdleConnections every Close / removal of an active-list entry is dominated by NumCalls() == 0 on that connection", 4)
@@ -732,6 +735,7 @@ func runC15(c *Check, a *Analysis) {
 			c.Ob("R-NUMCALLS", "(*Conn).NumCalls#counts "+t, nc.Pos(), have[t], ifs(!have[t], "NumCalls ignores Conn."+t+": housekeeping can close a connection with outstanding "+t))
 		}
 	}
+	ruleNumCallsMax(c, a, "R-NUMCALLS")
 }
 
 // ruleFreshLookup is shared by C13, C15 and C20.
